@@ -12,10 +12,15 @@ def make_namespace(dendropy, n, holes=(), order=None, labels=None):
     ns = dendropy.TaxonNamespace()
     total = n + len(holes)
     made = []
-    for i in range(total):
+    # when the newest accession is a member, it is created AFTER the holes were removed: same accession indices on
+    # a correct namespace, but a namespace that hands out indices again after a removal shows it (seeded C14-v2)
+    defer = bool(holes) and total > 0 and (total - 1) not in holes
+    for i in range(total - 1 if defer else total):
         made.append(ns.new_taxon("h%d" % i if i in holes else None))
     for i in sorted(holes):
         ns.remove_taxon(made[i])
+    if defer:
+        made.append(ns.new_taxon(None))
     taxa = [t for i, t in enumerate(made) if i not in holes]
     for k, t in enumerate(taxa):
         t.label = labels[k] if labels else "T%d" % (k + 1)
